@@ -185,6 +185,7 @@ theorem post_readCS_sane (c : Cfg) : Post (readCS c) CSSane := by
   refine Post.bind (Q := fun _ => True) Post.trivial (fun _ _ => ?_)
   refine Post.bind (post_readVA_sane c) (fun values hv => ?_)
   refine Post.bind (Q := fun _ => True) Post.trivial (fun v _ => ?_)
+  refine Post.ite (fun _ => Post.fail) (fun _ => ?_)
   refine Post.ite (fun _ => ?_) (fun _ => Post.pure ⟨hv, by simp⟩)
   refine Post.ite (fun _ => Post.fail) (fun _ => ?_)
   refine Post.bind (Q := fun _ => True) Post.trivial (fun _ _ => ?_)
